@@ -4,6 +4,7 @@ import (
 	"archive/zip"
 	"bytes"
 	"fmt"
+	"hash/crc32"
 	"sort"
 	"strings"
 
@@ -201,6 +202,25 @@ func Encode(a *Archive, p *Presentation) []byte {
 				p.use("decoy-member")
 			}
 		}
+		if r.Chance(1, 2) {
+			// an optional table that the archive does not have, present only as a member of a sub-directory (an old export
+			// left in the zip): a different member name, hence an unknown extra file
+			present := map[string]bool{}
+			for _, m := range members {
+				present[m.name] = true
+			}
+			nested := []member{
+				{"shapes.txt", []byte("shape_id,shape_pt_lat,shape_pt_lon,shape_pt_sequence\nnested-shape,1.5,2.5,1\nnested-shape,1.6,2.6,2\n")},
+				{"calendar_dates.txt", []byte("service_id,date,exception_type\nnested-service,20240101,1\n")},
+				{"calendar.txt", []byte("service_id,monday,tuesday,wednesday,thursday,friday,saturday,sunday,start_date,end_date\nnested-calendar,1,1,1,1,1,0,0,20240101,20241231\n")},
+			}
+			for _, n := range nested {
+				if !present[n.name] && r.Bool() {
+					members = append(members, member{core.Pick(r, []string{"previous/", "old/", "feed/", "__MACOSX/"}) + n.name, n.data})
+					p.use("nested-copy-of-an-absent-optional-table")
+				}
+			}
+		}
 		if r.Chance(2, 3) {
 			r.Shuffle(len(members), func(i, j int) { members[i], members[j] = members[j], members[i] })
 			p.use("member-order-shuffled")
@@ -238,6 +258,57 @@ func EncodeRaw(names []string, datas [][]byte) []byte {
 	zw.Close()
 	return zb.Bytes()
 }
+
+// EncodeLying builds a zip whose member headers lie: member `liar` is written raw (stored) with a declared uncompressed
+// size, compressed size or CRC that does not match its bytes. kind selects the lie.
+func EncodeLying(names []string, datas [][]byte, liar int, kind string) []byte {
+	var zb bytes.Buffer
+	zw := zip.NewWriter(&zb)
+	for i, n := range names {
+		if i != liar {
+			w, err := zw.CreateHeader(&zip.FileHeader{Name: n, Method: zip.Deflate})
+			if err != nil {
+				continue
+			}
+			w.Write(datas[i])
+			continue
+		}
+		fh := &zip.FileHeader{Name: n, Method: zip.Store}
+		fh.CRC32 = crc32.ChecksumIEEE(datas[i])
+		fh.CompressedSize64 = uint64(len(datas[i]))
+		fh.UncompressedSize64 = uint64(len(datas[i]))
+		switch kind {
+		case "uncompressed-size-2^50":
+			fh.UncompressedSize64 = 1 << 50
+		case "uncompressed-size-2^62":
+			fh.UncompressedSize64 = 1 << 62
+		case "uncompressed-size-2^32-1":
+			fh.UncompressedSize64 = 1<<32 - 1
+		case "uncompressed-size-zero":
+			fh.UncompressedSize64 = 0
+		case "uncompressed-size-one-less":
+			if len(datas[i]) > 0 {
+				fh.UncompressedSize64 = uint64(len(datas[i]) - 1)
+			}
+		case "compressed-size-2^40":
+			fh.CompressedSize64 = 1 << 40
+		case "wrong-crc":
+			fh.CRC32 ^= 0xdeadbeef
+		case "deflate-declared-but-stored":
+			fh.Method = zip.Deflate
+		}
+		w, err := zw.CreateRaw(fh)
+		if err != nil {
+			continue
+		}
+		w.Write(datas[i])
+	}
+	zw.Close()
+	return zb.Bytes()
+}
+
+// LyingKinds are the lies EncodeLying knows.
+var LyingKinds = []string{"uncompressed-size-2^50", "uncompressed-size-2^62", "uncompressed-size-2^32-1", "uncompressed-size-zero", "uncompressed-size-one-less", "compressed-size-2^40", "wrong-crc", "deflate-declared-but-stored"}
 
 // UsedString renders the used-feature map deterministically.
 func (p *Presentation) UsedString() string {
